@@ -5,6 +5,7 @@ The cubic in the molar volume v at pressure P (Pa):  P v^3 - (P b + RT) v^2 + a 
 All physical roots lie in (b, inf) because f(b) = -RT b^2 < 0 and P(v) < 0 for v < b.
 """
 from fractions import Fraction as Fr
+import functools
 import math
 
 
@@ -94,3 +95,62 @@ GASES = {
 }
 BOX_A = (0.003, 3.0)
 BOX_B = (1e-5, 2e-4)
+
+
+# ---------------------------------------------------------------------------------------------------------------
+# Reference value of every documented getter call (used for calling conventions and object histories)
+@functools.lru_cache(maxsize=None)
+def roots_memo(a, b, rt, p_pa):
+    """vdw_roots, memoised (the reference is a pure function of its arguments); roots as a tuple."""
+    roots, margin = vdw_roots(a, b, rt, p_pa)
+    return tuple(roots), margin
+
+
+def getter_value(eos, a, b, R, getter, kw):
+    """Reference value of getter(**kw) with the documented defaults filled in.
+
+    Returns (expected, rtol, atol) or None when the number of real roots is not decidable (nearly double root).
+    Units as documented: T / K, P / bar, V / m3, n / mol."""
+    T = float(kw.get('T', 298.15))
+    P = float(kw.get('P', 1.0))
+    V = float(kw.get('V', R * 298.15 / 1e5))
+    n = float(kw.get('n', 1.0))
+    gp = bool(kw.get('gas_phase', True))
+    if eos == 'ideal':
+        if getter == 'get_V':
+            return n * R * T / (P * 1e5), 1e-12, 0.0
+        if getter == 'get_P':
+            return n * R * T / V / 1e5, 1e-12, 0.0
+        if getter == 'get_T':
+            return P * 1e5 * V / (n * R), 1e-12, 0.0
+        if getter == 'get_n':
+            return P * 1e5 * V / (R * T), 1e-12, 0.0
+        raise ValueError(getter)
+    if getter in ('get_Vm', 'get_V', 'get_n'):
+        roots, margin = roots_memo(a, b, R * T, P * 1e5)
+        if margin < 1e-6:
+            return None
+        vm = roots[-1] if gp else roots[0]
+        if getter == 'get_Vm':
+            return vm, 1e-8, 0.0
+        if getter == 'get_V':
+            return n * vm, 1e-8, 0.0
+        return V / vm, 1e-8, 0.0
+    if getter == 'get_P':
+        vm = V / n
+        return (R * T / (vm - b) - a / vm ** 2) / 1e5, 0.0, 1e-12 * (abs(R * T / (vm - b)) + abs(a / vm ** 2)) / 1e5
+    if getter == 'get_T':
+        vm = V / n
+        return (P * 1e5 + a / vm ** 2) * (vm - b) / R, 1e-12, 0.0
+    if getter == 'get_Vc':
+        return 3.0 * n * b, 1e-12, 0.0
+    if getter == 'get_Tc':
+        return 8.0 * a / (27.0 * b * R), 1e-12, 0.0
+    if getter == 'get_Pc':
+        return a / (27.0 * b * b) / 1e5, 1e-12, 0.0
+    raise ValueError(getter)
+
+
+def from_critical_ab(tc, pc, R):
+    """(a, b) of the van der Waals fluid whose critical point is Tc / K, Pc / bar."""
+    return 27.0 * (R * tc) ** 2 / (64.0 * pc * 1e5), R * tc / (8.0 * pc * 1e5)
